@@ -11,7 +11,7 @@
     [exact] of a lemma of Coalesce/QueueProofs.v. *)
 From Coq Require Import Sorting.Sorted.
 From Gnmi Require Import Base.Prelude Base.Lts Coalesce.QueueModel Coalesce.QueueLts
-  Coalesce.QueueCheck Coalesce.QueueProofs Coalesce.QueueLive.
+  Coalesce.QueueCheck Coalesce.QueueProofs Coalesce.QueueLive Coalesce.QueueKSound.
 Open Scope N_scope.
 
 (** Refinement to the abstract coalescing queue: the critical sections are a
@@ -347,3 +347,114 @@ Theorem C11_transition_wake_delivery_refuted :
     (forall j, ~ tdelivers run lab j 2).
 Proof. exact transition_wake_delivery_refuted. Qed.
 Print Assumptions C11_transition_wake_delivery_refuted.
+
+(** ** Soundness of the wake-up / refusal / drain clauses of the mode S K_P
+    (Coalesce/QueueKSound.v)
+
+    [view progs pre] is the descriptive reading of a prefix of a recorded run
+    (a total fold that rejects nothing): linearisation of the locked sections
+    [d_lin], Close / cancel seen, where each producer stands, consumer's last
+    event = "parked", and [d_completed] = the Insert calls that returned before
+    Close, each with the linearisation up to and including its locked section.
+    [refusal_decl], [wake_decl], [drain_decl] quantify over every split point
+    of the run.  The point predicates [refusal_ok], [entitled_at],
+    [delivered_after] are the same on both sides: K_P accepting a run of the
+    implementation gives them at every point of the recorded run
+    ([C11_kp_*_sound]); the theorems over the transition system give them in
+    every reachable state ([C11_kp_*_lts]). *)
+
+(** refusal clause: in an accepted run no call passes the closed check after
+    Close has run, and no call is refused before *)
+Theorem C11_kp_refusal_sound :
+  forall progs steps fb fl, check_case (CSched progs steps fb fl) = [] ->
+    forall pre n e post, steps = pre ++ (TP n, e) :: post ->
+      refusal_ok (In (TK, SRet) pre) (e = SAt PtChecked) (e = SRetIns IClosed).
+Proof. exact kp_refusal_sound. Qed.
+Print Assumptions C11_kp_refusal_sound.
+
+(** wake-up clause: the run ends parked iff recorded so, and wherever the
+    consumer is parked it is entitled to be (open, live, and nothing pending or
+    a producer between the locked insert that made its item pending and its
+    return) or the very next event is the consumer's and is not "parked" *)
+Theorem C11_kp_wake_sound :
+  forall progs steps fb fl, check_case (CSched progs steps fb fl) = [] ->
+    fb = d_parked (view progs steps) /\
+    forall pre post, steps = pre ++ post -> d_parked (view progs pre) = true ->
+      entitled_at (d_closed (view progs pre)) (d_cancelled (view progs pre)) (d_lin (view progs pre))
+                  (exists n i hb, nth_dpp (d_pp (view progs pre)) n = DInserted i true hb)
+      \/ exists e post', post = (TC, e) :: post' /\ e <> SBlocked.
+Proof. exact kp_wake_sound. Qed.
+Print Assumptions C11_kp_wake_sound.
+
+(** drain clause: the consumer is told "closed" only after Close and after
+    every insertion that returned before Close was delivered (a pop of its
+    item after its own locked section) *)
+Theorem C11_kp_drain_sound :
+  forall progs steps fb fl, check_case (CSched progs steps fb fl) = [] ->
+    forall pre post, steps = pre ++ (TC, SRetNext NClosed) :: post ->
+      In (TK, SRet) pre /\
+      forall i hb, In (i, hb) (d_completed (view progs pre)) ->
+        delivered_after i hb (d_lin (view progs pre)).
+Proof. exact kp_drain_sound. Qed.
+Print Assumptions C11_kp_drain_sound.
+
+(** K_P's [may_wait] decides exactly "entitled to wait" (both directions), for
+    every K_P state related to the reading of the prefix by the invariant *)
+Theorem C11_kp_may_wait_iff :
+  forall k d, kinv k d -> (may_wait k = true <-> d_entitled d).
+Proof. exact kp_may_wait_iff. Qed.
+Print Assumptions C11_kp_may_wait_iff.
+
+(** the reading's closed / cancelled / parked are facts of the recorded history *)
+Theorem C11_kp_view_history :
+  forall progs pre,
+    (d_closed (view progs pre) = true <-> In (TK, SRet) pre) /\
+    (d_cancelled (view progs pre) = true <-> In (TX, SRet) pre) /\
+    (forall pre0 e mid, pre = pre0 ++ (TC, e) :: mid -> Forall (fun te => fst te <> TC) mid ->
+       (d_parked (view progs pre) = true <-> e = SBlocked)).
+Proof. exact kp_view_history. Qed.
+Print Assumptions C11_kp_view_history.
+
+(** The same predicates in every reachable state of the transition system. *)
+Theorem C11_kp_refusal_lts :
+  forall s n i s', lreach s -> lstep s (LCall n i) = Some s' ->
+    refusal_ok (In EClose (l_hist s)) (l_pp s' n = PChecked i)
+               (l_hist s' = ERetIns n i IClosed :: ECallIns n i :: l_hist s).
+Proof. exact lts_refusal_ok. Qed.
+Print Assumptions C11_kp_refusal_lts.
+
+Theorem C11_kp_wake_lts :
+  forall s, lreach s -> l_cp s = CWait ->
+    ((forall b, lstep s (LSel b) = None) ->
+     entitled_at (q_closed (l_q s)) (l_cancelled s) (lin (l_hist s))
+                 (exists n i, l_pp s n = PInserted i true)) /\
+    (~ entitled_at (q_closed (l_q s)) (l_cancelled s) (lin (l_hist s))
+                   (exists n i, l_pp s n = PInserted i true) ->
+     exists b s', lstep s (LSel b) = Some s').
+Proof. exact kp_wake_lts. Qed.
+Print Assumptions C11_kp_wake_lts.
+
+Theorem C11_kp_drain_lts :
+  forall s l s' pre,
+    lreach s -> lstep s l = Some s' -> l_hist s' = ERetNext NClosed :: pre ->
+    List.length (l_hist s') = S (List.length (l_hist s)) ->
+    In EClose (l_hist s) /\
+    forall i f r a, lin (l_hist s') = a ++ LIns i f :: r ->
+      delivered_after i (LIns i f :: r) (lin (l_hist s')).
+Proof. exact lts_closed_drained. Qed.
+Print Assumptions C11_kp_drain_lts.
+
+(** Non-vacuity: an accepted recorded run on which all three statements hold,
+    and for each clause a run K_P rejects (tag 2 / 5 / 5 / 3) on which the
+    statement is false. *)
+Theorem C11_kp_examples :
+  (check_case (CSched [[5; 6]] run_good false 0) = [] /\
+   refusal_decl run_good /\ wake_decl [[5; 6]] run_good false /\ drain_decl [[5; 6]] run_good /\
+   d_completed (view [[5; 6]] run_good) = [(5, [LIns 5 true])]) /\
+  (ks_run 0 (ks_init [[5]]) run_bad_refusal false 0 = [(1%nat, 2)] /\ ~ refusal_decl run_bad_refusal) /\
+  (ks_run 0 (ks_init [[5]]) run_bad_wake true 0 = [(3%nat, 5)] /\ ~ wake_decl [[5]] run_bad_wake true) /\
+  (ks_run 0 (ks_init [[5]]) run_bad_wake_item true 1 = [(5%nat, 5)] /\
+   ~ wake_decl [[5]] run_bad_wake_item true) /\
+  (ks_run 0 (ks_init [[5]]) run_bad_drain false 1 = [(4%nat, 3)] /\ ~ drain_decl [[5]] run_bad_drain).
+Proof. exact kp_examples. Qed.
+Print Assumptions C11_kp_examples.
